@@ -36,6 +36,21 @@ CLAIMS = {
                  'starts, only legitimate - events, close every run longer than one instant and decode back to the '
                  'model presence. One open finding (D12a, pinned by existing tests) exempts the closure/decode '
                  'clauses for a pair while it has a point+point two-instant run.'),
+    'C06': claim('exploration', 'DESIGN.md 7/C06',
+                 'deterministic simulation: slices derived mid-history become live replicas; source observed before/after',
+                 'time_slice (method and function, windows chosen by class relative to the runs, inverted windows, '
+                 'slice of slice) is applied at seeded points of histories on both classes: the slice must have the '
+                 'class, exactly presence-intersect-window for every pair and instant, exactly the surviving endpoints '
+                 'with the source attributes; the complete observable state of the source must be unchanged; nested '
+                 'slices must equal the slice by the intersection; the slice then lives on as a replica under the '
+                 'C03/C04/C05 invariants while the history continues on it.'),
+    'C16': claim('exploration', 'DESIGN.md 7/C16',
+                 'deterministic simulation: conversions derived mid-history + aliasing interleaving (mutate one replica, observe the others)',
+                 'to_directed / to_undirected(reciprocal or not) are applied at seeded points; presence of the result '
+                 'is compared with union/intersection over directions for all pairs and instants, nodes and attributes '
+                 'by value, the source must be observably unchanged, nested attribute values of either graph are then '
+                 'mutated and every replica re-observed (isolation), and the result lives on under C03/C04/C05. '
+                 'Open finding D16 (pinned): to_directed produces one orientation only; everything else about it is asserted.'),
     'C07': claim('fault_enumeration', 'DESIGN.md 7/C07',
                  'deterministic simulation with injected rejections (out-of-order, missing t, failing bulk element, failing iterable) + shadow replay',
                  'Rejected calls are injected at seeded points of histories in both classes and both modes; the full '
